@@ -376,7 +376,7 @@ class Result:
         self.assumptions = []
         os.makedirs(REPLAY, exist_ok=True)
         for f in os.listdir(REPLAY):
-            if f.startswith(prop + "_"):
+            if f.startswith(prop + "_") and not os.environ.get("VERIF_REPLAYING"):   # a replay must not delete replay files
                 os.remove(os.path.join(REPLAY, f))
 
     def add_tlc(self, res):
